@@ -213,3 +213,22 @@ example :
     let o : Opts := { write := fun _ => true, trigOnly := trigOnlyOf (.list (fun _ => true)) }
     numEvents (run o [.ok ⟨1, false, 1, 1, false, 1⟩]) = 0 ∧ (run o [.ok ⟨1, false, 1, 1, false, 1⟩]).nEvents = 1 ∧
     numEvents (run o [.ok ⟨1, false, 1, 1, false, 1⟩, .ok ⟨2, true, 1, 1, false, 1⟩]) = 2 := by decide
+
+/-- `C11_index_in_bounds`, `C11_index_monotone`, `C11_reject_isolated`, `C11_reject_last`,
+`C11_orphans_unreachable`, `C11_keys_stable` on the concrete history `c11Hist` (two rejected adds, a
+reopen): the raw index, the table lengths and the column list -/
+example :
+    (run c11Opts c11Hist).index.map (fun ix => (ix .particles, ix .rays)) = [((0, 2), (0, 2)), ((5, 1), (2, 0)), ((6, 3), (2, 3))] ∧
+    ((run c11Opts c11Hist).rows .particles).length = 10 ∧ ((run c11Opts c11Hist).rows .rays).length = 5 ∧
+    (run c11Opts c11Hist).cols = [.particles, .triggers, .rays] ∧
+    numEvents (run c11Opts (c11Hist.take 1 ++ c11Hist.drop 2)) = numEvents (run c11Opts c11Hist) ∧
+    (getEvent (run c11Opts c11Hist) 1 .particles).all (fun r => r matches .data 2 _) = true := by decide
+
+/-- `C11_counters_any_options` and `C11_empty_file_iterates_empty`: a history whose only add is
+rejected between the counter increment and the resize of `_write_trigger` (the one real "counter
+only" cut) — no event, the trigger counter is ahead of its dataset, iteration yields nothing -/
+example :
+    let o : Opts := { write := fun | .particles => true | .triggers => true | _ => false, trigOnly := trigOnlyOf (.bool false) }
+    let f := run o [.rejected ⟨1, false, 0, 0, false, 1⟩ 6]
+    accepted [Op.rejected ⟨1, false, 0, 0, false, 1⟩ 6] = [] ∧ f.counter .triggers = 1 ∧ (f.rows .triggers).length = 0 ∧
+    numEvents f = 0 ∧ (iterAll f none).1.length = 0 := by decide
